@@ -456,7 +456,11 @@ def canon(t, roles=None):
         if t.get('indirect'):
             return 'indirect[%s](%s)' % (canon(t.get('fn'), roles), args)
         if 'recv' in t:
-            return '%s.%s(%s)' % (canon(t['recv'], roles), name, args)
+            rv = strip_casts(t['recv'])
+            # p->f(), (*p).f(), (&x)->f(): the receiver is the object
+            while isinstance(rv, dict) and rv.get('k') == 'un' and rv['op'] in ('&', '*'):
+                rv = strip_casts(rv['e'])
+            return '%s.%s(%s)' % (canon(rv, roles), name, args)
         cls = t.get('cls')
         if cls:
             return '%s::%s(%s)' % (strip_ns(cls), name, args)
